@@ -170,12 +170,23 @@ def layer_component(lname):
     return make, step, row, torch.bool
 
 
-def independence_shard(kind, args, T, Bs):
+def independence_shard(kind, args, T, Bs, path="ctor"):
+    """path: how the batched object gets its batch size - constructor argument, or the ``batchsz`` setter on a fresh
+    object built with another size (grown from 1 / shrunk from B+1); the single-sample references are always constructed."""
     tally = Tally()
-    make, step, row, dtype = {"neuron": neuron_component, "synapse": synapse_component, "connection": connection_component,
-                              "layer": layer_component}[kind](*args)
+    make0, step, row, dtype = {"neuron": neuron_component, "synapse": synapse_component, "connection": connection_component,
+                               "layer": layer_component}[kind](*args)
+
+    def make(B):
+        if path == "ctor" or B == 1:
+            return make0(B)
+        obj = make0(1 if path == "grown" else B + 1)
+        obj.batchsz = B
+        return obj
+
     hist = list(itertools.product(range(3), repeat=T))
-    cfg = {"component": kind, "args": list(args), "T": T}
+    cfg = {"component": kind, "args": list(args), "T": T, "batch_size_set_by": path}
+    pk = "" if path == "ctor" else ":" + path
     # single-sample reference runs
     single = {}
     for h in hist:
@@ -209,7 +220,7 @@ def independence_shard(kind, args, T, Bs):
                             ref = single[tp[b]][t][k]
                             got = v[b:b + 1]
                             if not close(got, ref):
-                                tally.violation(f"sample-differs:{kind}:{args[0]}:{k}", {**case, "step": t, "sample": b},
+                                tally.violation(f"sample-differs:{kind}:{args[0]}:{k}{pk}", {**case, "step": t, "sample": b},
                                                 f"step {t}: {k}[{b}] of the batched run differs from the single-sample run of history {tp[b]}: "
                                                 f"{got.reshape(-1).tolist()[:6]} vs {ref.reshape(-1).tolist()[:6]}", ref.tolist(), got.tolist())
                                 ok = False
@@ -219,10 +230,10 @@ def independence_shard(kind, args, T, Bs):
                     if not ok:
                         break
             except Exception as ex:
-                tally.violation(f"exception:batched:{kind}:{args[0]}:{type(ex).__name__}", case, repr(ex))
+                tally.violation(f"exception:batched:{kind}:{args[0]}:{type(ex).__name__}{pk}", case, repr(ex))
                 break
             if len(set(tp)) > 1:
-                tally.mark("nontrivial", (kind, args, B, tp))
+                tally.mark("nontrivial", (kind, args, B, tp, path))
     tally.sample({**cfg, "alphabet": [row(i) for i in range(3)], "batch_sizes": list(Bs)})
     return tally
 
@@ -273,13 +284,18 @@ def run(rep):
     jobs = []
     for cname in CLS:
         jobs.append((independence_shard, ("neuron", (cname,), T, Bs)))
+        for path in ("grown", "shrunk"):  # batch size assigned through the setter on a fresh object
+            jobs.append((independence_shard, ("neuron", (cname,), T, (2,), path)))
     for sname in ("delta", "deltaplus", "exp", "dexp"):
         for delay in (0.0, 2.0):
             jobs.append((independence_shard, ("synapse", (sname, delay), T, Bs)))
+            jobs.append((independence_shard, ("synapse", (sname, delay), T, (2,), "grown" if delay else "shrunk")))
     for cname in ("dense", "direct", "lateral", "conv"):
         for skind in ("delta", "exp"):
             for delayed in (False, True):
                 jobs.append((independence_shard, ("connection", (cname, skind, delayed), T, Bs)))
+                if skind == "exp":
+                    jobs.append((independence_shard, ("connection", (cname, skind, delayed), T, (2,), "grown" if delayed else "shrunk")))
     for lname in ("serial", "biclique", "recurrent"):
         jobs.append((independence_shard, ("layer", (lname,), T, Bs)))
     for cname in ADAPT_THRESH + ADAPT_CURR:
